@@ -89,6 +89,12 @@ pub const A_ESC: &[&str] = &[
     "\u{7f}", "\u{80}", "\u{e9}", "\u{100}", "\u{fff}", "\u{1000}", "\u{ffff}", "\u{10000}", "\u{fffff}", "\u{100000}", "\u{10ffff}",
     "\u{1f4a9}",
 ];
+/// Runs of consecutive code points whose end points are special inside a bracketed class (Z [ \ ] ^ _ `, + , - . /, tab LF VT, # $ %).
+pub const A_CONS: &[&str] = &["Z", "[", "\\", "]", "^", "_", "`", "+", ",", "-", ".", "/", "\t", "\n", "\u{b}", "#", "$", "%"];
+/// Metacharacters next to characters that join them into one multi-scalar grapheme cluster without being
+/// marks: emoji modifier, Thai SARA AM, halfwidth sound mark (Extend / SpacingMark of category Sk, Lo, Lm),
+/// Prepend characters of category Lo.
+pub const A_GCM: &[&str] = &[".", "+", "|", "(", "-", "a", "\u{1f3fb}", "\u{e33}", "\u{ff9e}", "\u{d4e}", "\u{111c2}", "\\"];
 pub const A_SGR: &[&str] = &["\u{1b}", "[", "m", "0", ";", "1", "$", ")", "("];
 
 /// Non-triviality rule (DESIGN §3).
